@@ -134,8 +134,25 @@ fn judge_name_range(doc: &Doc, acc: &mut Acc, r: R4, name: &str, what: &str) -> 
     Err(format!("{}: range {:?} does not cover exactly the token `{}` (token there: {:?})", what, r, name, doc.name_tok(r.0, r.1, r.3)))
 }
 
+/// final text of the document and, for `prior != 0`, the earlier version the server saw first under the same path
+pub fn versions(m: &PModule) -> (String, Option<String>) {
+    let body = render_module(m);
+    let nl = if m.deco_bits & 1 != 0 { "\r\n" } else { "\n" };
+    let pad = |tag: &str| -> String { (0..40).map(|i| format!("# {} {:02} {}{}", tag, i, "-".repeat(52), nl)).collect() };
+    match m.prior % 4 {
+        0 => (body, None),
+        1 => (format!("{}{}", nl, body), Some(format!("{}{}", body, nl))),
+        2 => (format!("{}{}{}{}", pad("head"), nl, body, pad("tail")), Some(format!("{}{}{}{}", pad("head"), body, nl, pad("tail")))),
+        _ => {
+            let fin = format!("{}{}{}", pad("head"), body, pad("tail"));
+            let other: String = format!("{}import pytest{}{}@pytest.fixture{}def zulu_{}():{}    return 1{}", pad("head"), nl, nl, nl, m.items.len(), nl, nl);
+            (fin, Some(other))
+        }
+    }
+}
+
 pub fn check_doc(ctx: &Ctx, m: &PModule, info: &mut CaseInfo, disagreements: &std::sync::atomic::AtomicU64) -> Outcome {
-    let src = render_module(m);
+    let (src, prev) = versions(m);
     let Some(o) = with_oracle(|p| p.extract(&src)) else { return Outcome::Fail("python oracle unavailable".into()) };
     if !o["ok"].as_bool().unwrap_or(false) {
         return Outcome::Fail(format!("generated module is rejected by CPython: {}\n{}", o["error"], src));
@@ -161,7 +178,18 @@ pub fn check_doc(ctx: &Ctx, m: &PModule, info: &mut CaseInfo, disagreements: &st
             }
         };
     }
-    let diags = match srv.open(path, &src) {
+    if let Some(prev) = &prev {
+        // the final text arrives as a change of an earlier version: positions must be those of the final text
+        info.classes.push(format!("earlier-version-kind-{}", m.prior % 4));
+        if let Err(e) = srv.open(path, prev) {
+            return match classify(e, "didOpen (earlier version)") {
+                Infra::Crash(msg) => Outcome::Fail(format!("{}\n--- earlier version ---\n{}", msg, prev)),
+                i => infra_outcome(i, &ctx.inconclusive),
+            };
+        }
+    }
+    let sent = if prev.is_some() { srv.change(path, 2, &src) } else { srv.open(path, &src) };
+    let diags = match sent {
         Ok(d) => d,
         Err(e) => {
             return match classify(e, "didOpen") {
